@@ -87,7 +87,8 @@ def run_multipoint(col):
     item0 = it.call(cls, [fc], dict(points=[0, 1], centerpoint=npts_ - 1, skip=(False, False, False), multiplier=k))
     r0 = micro.dense(it.call(it.getattr(it.getattr(item0, "assemble"), "vector"), [fc], {}))
     K0 = micro.dense(it.call(it.getattr(it.getattr(item0, "assemble"), "matrix"), [fc], {}))
-    for what, pts_, ctr in (("negative ids", [0, 1, -1], npts_ - 1), ("negative ids, negative centre", [0, 1 - npts_, -1], -1)):
+    for what, pts_, ctr in (("negative ids", [0, 1, -1], npts_ - 1), ("negative ids, negative centre", [0, 1 - npts_, -1], -1),
+                            ("a point listed twice", [0, 1, 0], npts_ - 1), ("a point listed twice, once from the end", [0, 1, -npts_], npts_ - 1)):
         def chk_sp(pts_=pts_, ctr=ctr):
             item = it.call(cls, [fc], dict(points=pts_, centerpoint=ctr, skip=(False, False, False), multiplier=k))
             r_ = micro.dense(it.call(it.getattr(it.getattr(item, "assemble"), "vector"), [fc], {}))
@@ -159,6 +160,20 @@ def run_multipoint(col):
             ring.ORDER_ORACLE[0] = None
         _deriv(col, "C01.O7", "MultiPointContact (%s)" % case, method_where(cls, "_matrix"), r, K, unknowns,
                rule="away from the switching point (all monitored gaps %s): matrix == d vector / d unknowns" % case)
+        if case == "closed":
+            # the same point set with one point listed twice (ids concatenated from two selections)
+            r0_, K0_ = micro.dense(r), micro.dense(K)
+            ring.ORDER_ORACLE[0] = oracle
+            try:
+                item2 = it.call(cls, [fc], dict(points=[0, 1, 0], centerpoint=3, skip=(True, False, False), multiplier=k))
+                r2_ = micro.dense(it.call(it.getattr(it.getattr(item2, "assemble"), "vector"), [fc], {}))
+                K2_ = micro.dense(it.call(it.getattr(it.getattr(item2, "assemble"), "matrix"), [fc], {}))
+            finally:
+                ring.ORDER_ORACLE[0] = None
+            badr = [i for i in range(r0_.shape[0]) if not is_zero(P(r2_[i, 0]) - P(r0_[i, 0]))]
+            badK = [(i, j) for i in range(K0_.shape[0]) for j in range(K0_.shape[1]) if not is_zero(P(K2_[i, j]) - P(K0_[i, j]))]
+            col.add("C01.O7", "MultiPointContact (closed) a point listed twice", "the same set of points, however its ids are listed, gives the same contact force and its derivative",
+                    not badr and not badK, "%s: force rows %s, stiffness entries %s differ from the item given as points=[0, 1]" % (method_where(cls, "__init__"), badr[:4], badK[:4]))
         if case == "open":
             col.add("C01.O7", "MultiPointContact (open) inactive", "no contact -> zero force and zero stiffness",
                     all(not P(x).t for x in micro.dense(r).reshape(-1)) and all(not P(x).t for x in micro.dense(K).reshape(-1)))
@@ -270,6 +285,24 @@ def run_multiplier(col):
     okr = all(is_zero(P(fb[I]) - m1 * rb_[I, 0]) for I in range(n)) and all(is_zero(P(v)) for v in fcz)
     col.add("C01.O8", "item.results.force after fun_items", "the force an item reports after the global residual was evaluated is its contribution to that residual (multiplier applied)", okr,
             "tools/_newton.py fun_items: item.results.force is %s, its contribution to the residual is %s" % (ring.fmt(P(fb[0]), 3), ring.fmt(m1 * rb_[0, 0], 3)))
+    # the library's own item that takes a user multiplier: SolidBody(multiplier=m) next to a twin without one (same material, same field).
+    # Its contribution to the global residual and tangent is m times the twin's -- once, wherever the code applies the factor.
+    from .c03 import OpaqueHyper
+    umat = OpaqueHyper("Wm", dim=tdim)
+    SB = it.get("felupe.mechanics._solidbody:SolidBody")
+    twin = it.call(SB, [], dict(umat=umat, field=fc))
+    body = it.call(SB, [], dict(umat=umat, field=fc, multiplier=m1))
+    f0 = micro.dense(it.call(fun_items, [[twin], fc], {})).reshape(-1).copy()
+    K0 = micro.dense(it.call(jac_items, [[twin], fc], {})).copy()
+    for rep in (1, 2):  # twice: a factor applied in place to a re-used result buffer would accumulate
+        fm = micro.dense(it.call(fun_items, [[body], fc], {})).reshape(-1)
+        Km = micro.dense(it.call(jac_items, [[body], fc], {}))
+        okf = all(is_zero(P(fm[I]) - m1 * P(f0[I])) for I in range(n)) and any(P(v).t for v in f0)
+        okK = all(is_zero(P(Km[I, J]) - m1 * P(K0[I, J])) for I in range(n) for J in range(n)) and any(P(v).t for v in K0.reshape(-1))
+        col.add("C01.O8", "SolidBody(multiplier=m) in fun_items, evaluation %d" % rep, "its contribution to the global residual is m times that of the same body without multiplier (the factor enters exactly once)", okf,
+                "%s: got %s for twin entry %s" % (method_where(SB, "_vector"), ring.fmt(P(fm[0]), 3), ring.fmt(P(f0[0]), 3)))
+        col.add("C01.O8", "SolidBody(multiplier=m) in jac_items, evaluation %d" % rep, "its contribution to the global tangent is m times that of the same body without multiplier (the factor enters exactly once)", okK,
+                "%s: got %s for twin entry %s" % (method_where(SB, "_matrix"), ring.fmt(P(Km[0, 0]), 3), ring.fmt(P(K0[0, 0]), 3)))
     finish_info(col, it)
 
 
